@@ -33,7 +33,7 @@ def add(name, vocab, prelude=(), quick=5, thorough=7, devs=None, punct=None):
 
 add("structure",
     ids("if", "elsif", "else", "stop", "keep", "discard", "true", "false", "not", "anyof", "allof", "bogus")
-    + strs("a") + [("num", "1")] + tags(":bogus"), quick=5, thorough=7)
+    + strs("a") + [("num", "1")] + tags(":bogus"), quick=5, thorough=9)
 add("tests",
     ids("if", "header", "address", "exists", "size", "not", "stop")
     + tags(":comparator", ":is", ":contains", ":count", ":regex", ":localpart", ":over", ":bogus")
@@ -69,7 +69,7 @@ add("nesting", ids("if", "not", "anyof", "true", "keep", "else"),
 add("lists",
     ids("require", "if", "exists", "header", "redirect", "stop")
     + strs("a", "b", "@innerq") + [("ml", "m")] + tags(":is"),
-    quick=5, thorough=7)
+    quick=5, thorough=8)
 
 ALL_EXTS = ["fileinto", "reject", "envelope", "body", "vacation", "vacation-seconds", "variables",
             "date", "imap4flags", "copy", "mailbox", "relational", "regex"]
